@@ -263,16 +263,17 @@ PROPS = {
         trusted=["std::fs / tiny-skia save_png / the kernel (modelled as create + write_all)", "fault injection by rlimits, uid drop and special paths in a child process"],
         assumptions=["short writes other than the one before a file-size limit, EINTR and Ok(0) are covered by the theorem only, not injected"]),
     "C13": dict(
-        module="FastQr.Props.C13", level="other", partial=True,
-        key=lambda t: (("pixh", t[4], tuple(x[0] for x in t[7].split(";"))) if t[0] == "pixh" else ("pix", t[4], tuple(x for x in t[6].split(";") if x.startswith(("m:", "s:"))), t[7] != "-", t[8] != "-", t[6].split("bc:")[-1][-2:])) if len(t) > 9 else None,
+        module="FastQr.Props.C13", more_modules=["FastQr.Props.C13Ideal"], level="proof", partial=True,
+        key=lambda t: (("pixh", t[4], tuple(x[0] for x in t[7].split(";"))) if t[0] == "pixh" else ("pixsvg", t[4], tuple(x for x in t[6].split(";") if x.startswith(("m:", "s:")))) if t[0] == "pixsvg" else ("pix", t[4], tuple(x for x in t[6].split(";") if x.startswith(("m:", "s:"))), t[7] != "-", t[8] != "-", t[6].split("bc:")[-1][-2:])) if len(t) > 9 else None,
         missing=["the rasteriser (resvg/usvg/tiny-skia), anti-aliasing, colour conversion and the PNG codec are external and not modelled"],
-        rule="cases: (`pixh`: HISTORIES of 2..5 fit_width / fit_height calls on one builder — the last width and the last height both stay in force) real ImageBuilder::to_pixmap / to_bytes: versions (quick 1, 2, 7; thorough all 40) x 6 shapes x margins "
+        rule="cases: (`pixh`: HISTORIES of 2..5 fit_width / fit_height calls on one builder — the last width and the last height both stay in force; `pixsvg`: the ideal rasteriser Spec.Raster run on the REAL SVG text against the real pixmap, cell centres and every pixel of pixmaps up to 130 px, 6 shapes x integer and non-integer scales) real ImageBuilder::to_pixmap / to_bytes: versions (quick 1, 2, 7; thorough all 40) x 6 shapes x margins "
              "{0,1,4,7} x fits {original, width 4x, height 5x, both, 2x/3x, non-integer >= 4 px/module} x 4 colour pairs incl. "
              "transparent background. The harness canonicalises the pixmap to a per-cell summary (uniform colour class of all "
              "pixels of the cell at integer scale; class of the pixel containing the cell centre) and decodes the PNG with the "
              "png crate; the Lean spec compares with the matrix. distinct = (version, margin, shape, fit kind, background alpha).",
-        explanation="Proved in Lean: option forwarding ImageBuilder -> SvgBuilder for every setter history (so the raster input "
-                    "is C12's string) and the fit-size rule. Everything about pixels is an observation of the real external "
-                    "rasteriser compared with the matrix by the Lean spec; no theorem covers it.",
+        explanation="Proved in Lean: option forwarding ImageBuilder -> SvgBuilder for every setter history, the fit-size rule, and "
+                    "what an ideal centre-sampling renderer shows for that text (cell centres for all six shapes at any scale >= 4 "
+                    "px/module; every pixel for square layers at integer scale). That the real external rasteriser implements the "
+                    "ideal is an observation (pixmap vs matrix, pixmap vs Spec.Raster on the real text); no theorem covers it.",
         trusted=["resvg / usvg / tiny-skia / png (external)", "harness canonicalisation of the pixmap to cell summaries"]),
 }
